@@ -25,6 +25,13 @@ NA = {
 }
 
 CHECKS = {
+    "C07": dict(
+        category="exploration",
+        text="Deterministic simulation of decoration/instance/conversion histories: each simulated run (fresh interpreter) executes a seeded history over a pool of live instances of decorated targets (module-level functions with kwargs, nnx modules, nested nnx modules, unique=True modules, Equinox modules with static fields, plain classes, a class decorated late, re-decoration with unique=True, drop + GC for id reuse, temporaries created inside the traced function) and exports generated compositions of 1-6 call sites (same instance twice, equal-weight twins, different weights/static field/kwarg/input shape, call order, symbolic batch, opset 21/23, input_params), some under injected faults in the function-body path. Oracle per successful export: ORT(decorated) == ORT(reference = same callable with all function plugins removed from the registry) == eager JAX on three seeded inputs; every call node has exactly one definition with equal input/output arity and an imported domain (recursively); call sites sharing a definition come from value-equal objects. Seeded search over histories.",
+        design_ref="§5.1",
+        note="Trusted: onnxruntime, eager JAX, the registry-removal reference export. Distinct weights differ by far more than the tolerance, so a confused instance is visible numerically.",
+        technique="deterministic simulation: seeded stateful histories (decorate/instantiate/drop/GC/convert/faulted convert) with differential oracle vs undecorated export and JAX",
+    ),
     "C15": dict(
         category="exploration",
         text="Deterministic simulation of export/reload histories against a reference map path -> expected ModelProto: seeded sequences of file exports (standard/web) to three paths (existing dir, not-yet-existing subdir, relative to cwd), ir and proto exports, user edits of returned ir models, planted stale/garbage sidecars and late reloads, with parameter sizes on a 4-byte ladder around the 1 MiB spill point, 512 KiB, 4 MiB, one or two large tensors, large constants inside function and loop bodies. Odd-numbered runs inject I/O faults through a file layer that owns open/os.fdopen/write/os.remove/os.path.getsize/os.makedirs (errors, torn writes, crash-class exceptions). Oracle after every returned export: reload equals the proto of the same request after storage normalisation (bit-exact payloads), external references resolve inside the directory, web main file alone loads, ORT(file)==ORT(proto) bitwise, ir->proto byte-equal, earlier ir handles unchanged.",
